@@ -216,7 +216,7 @@ impl Check for Spending {
                 Step::Advance { n } => {
                     w.advance(*n);
                     m.now += n;
-                    st.ledgers += *n as u64;
+                    st.ledgers += *n as u64; st.hit("clock.advance"); if *n > 100_000 { st.hit("clock.jump"); }
                 }
                 Step::Install { limit, period } => {
                     let params = SpendingLimitAccountParams { spending_limit: *limit, period_ledgers: *period };
